@@ -318,6 +318,8 @@ def repo_tests_trace(rep, work, regex, timeout=1500, skip_heavy=False):
                     e = json.loads(line)
                 except ValueError:
                     continue
+                if "c" not in e:        # a footer swap of a store: validated against TraceStore below
+                    continue
                 cid = e["c"]
                 if cid not in seen:
                     seen[cid] = base + len(seen) + 1
@@ -361,6 +363,9 @@ def repo_tests_trace(rep, work, regex, timeout=1500, skip_heavy=False):
         resyncs.append({"event": at, "record": bad})
         # re-synchronise the specification with what the hook reports and go on with the rest of the trace
         recs.insert(at - 1, dict(bad, ev="resync"))
+    # the stores of the repository's tests: every footer swap against TraceStore.tla
+    srecs, nstore = vlib.store_trace_records([os.path.join(tdir, fn) for fn in sorted(os.listdir(tdir)) if fn.endswith(".ndjson")])
+    vlib.validate_store_trace(rep, work, srecs, nstore, "C16", "the stores created by the repository's own tests (tag verif)")
     return len(recs), states, resyncs
 
 
